@@ -198,6 +198,21 @@ fn bezpath_case(rng: &mut Rng, rep: &mut Report) {
         let start = p;
         path.move_to(p);
         expect.push(format!("M{},{}", p.x as f32, p.y as f32));
+        // an on-curve point at, or one unit beside, the midpoint of its two off-curve neighbours (odd and even coordinate sums):
+        // it may be left out only when it is the exact midpoint
+        if rng.chance(1, 2) {
+            let c1 = Point::new(p.x + (rng.range(1, 60)) as f64, p.y + (rng.range(-40, 40)) as f64);
+            let c2 = Point::new(c1.x + (rng.range(1, 80)) as f64, c1.y + (rng.range(1, 80)) as f64);
+            let (sx, sy) = ((c1.x + c2.x) as i64, (c1.y + c2.y) as i64);
+            let pick = |rng: &mut Rng, sum: i64| -> f64 { (sum.div_euclid(2) + *rng.pick(&[0i64, 0, 1, -1])) as f64 };
+            let q = Point::new(pick(rng, sx), pick(rng, sy));
+            let r = Point::new(c2.x + (rng.range(2, 40) * 2) as f64, c2.y - (rng.range(2, 40) * 2) as f64);
+            path.quad_to(c1, q);
+            path.quad_to(c2, r);
+            expect.push(format!("Q{},{} {},{}", c1.x as f32, c1.y as f32, q.x as f32, q.y as f32));
+            expect.push(format!("Q{},{} {},{}", c2.x as f32, c2.y as f32, r.x as f32, r.y as f32));
+            p = r;
+        }
         let n = 2 + rng.below(5);
         for k in 0..n {
             let q = Point::new(p.x + (rng.range(-30, 30) * 4) as f64 + 4.0, p.y + (rng.range(-30, 30) * 4) as f64 + 8.0);
